@@ -524,6 +524,10 @@ func (s *MemoryBackend) ReadUsersetTuples(
 			Object:   filter.Object,
 			Relation: filter.Relation,
 		}) && tupleUtils.GetUserTypeFromUser(t.User) == tupleUtils.UserSet {
+			if len(filter.Conditions) > 0 && !slices.Contains(filter.Conditions, t.ConditionName) {
+				continue
+			}
+
 			if len(filter.AllowedUserTypeRestrictions) == 0 { // 1.0 model.
 				matches = append(matches, t)
 				continue
@@ -532,15 +536,17 @@ func (s *MemoryBackend) ReadUsersetTuples(
 			// 1.1 model: see if the tuple found is of an allowed type.
 			userType := tupleUtils.GetType(t.User)
 			_, userRelation := tupleUtils.SplitObjectRelation(t.User)
+			isWildcard := tupleUtils.IsTypedWildcard(t.User)
 			for _, allowedType := range filter.AllowedUserTypeRestrictions {
-				if allowedType.GetType() == userType && allowedType.GetRelation() == userRelation {
-					matches = append(matches, t)
+				if allowedType.GetType() != userType {
 					continue
 				}
-			}
-
-			if len(filter.Conditions) > 0 && !slices.Contains(filter.Conditions, t.ConditionName) {
-				continue
+				// a typed wildcard is allowed by a wildcard restriction, a userset by a restriction on its relation
+				if (isWildcard && allowedType.GetWildcard() != nil) ||
+					(!isWildcard && allowedType.GetRelation() != "" && allowedType.GetRelation() == userRelation) {
+					matches = append(matches, t)
+					break
+				}
 			}
 		}
 	}
@@ -590,6 +596,7 @@ func (s *MemoryBackend) ReadStartingWithUser(
 			}
 
 			matches = append(matches, t)
+			break
 		}
 	}
 	sort.Slice(matches, func(i, j int) bool {
